@@ -6,14 +6,43 @@ the sounding rows of `note_array`).  `image m L ps i p e` is where element `e` o
 up: `xform m (ctxAt L ps i p) e`, the loop state `ctxAt` being the multiplier `L / p.divs` and the sums, over
 the earlier parts, of their maximal voices / maximal staves / numbers of distinct staves.
 -/
-import PartituraModel.Proofs.C15Result
+import PartituraModel.Proofs.C15Sound
 
 namespace C15
 open Model.Merge
 
 /-- voice and staff numbers start from 1 (MusicXML; "voice numbers start from 1" in `merge_parts`) -/
 def NumberedFrom1 (ps : List APart) : Prop :=
-  ∀ p ∈ ps, ∀ e ∈ p.elems, (∀ v, e.voice = some v → 1 ≤ v) ∧ (∀ s, e.staff = some s → 1 ≤ s)
+  ∀ p ∈ ps, ∀ e ∈ p.elems, (∀ v ∈ e.voice, 1 ≤ v) ∧ (∀ s ∈ e.staff, 1 ≤ s)
+
+-- ================================================================ a concrete, non-trivial instance
+
+/-- part A, divisions 3: a quarter note tied to a half note (voice 1), a rest alone in voice 2, a note without staff,
+measure, time signature, a clef on an empty second staff, a fermata -/
+def exA : APart := { pid := 0, divs := 3, elems := [
+  { oid := 0, cls := classId "Note", start := 0, stop := some 3, voice := some 1, staff := some 1, pitch := some 60, tiePrev := false, chain := [4] },
+  { oid := 1, cls := classId "Rest", start := 0, stop := some 9, voice := some 2, staff := some 1, pitch := none, tiePrev := false, chain := [] },
+  { oid := 2, cls := classId "Clef", start := 0, stop := none, voice := none, staff := some 2, pitch := none, tiePrev := false, chain := [] },
+  { oid := 3, cls := classId "Measure", start := 0, stop := some 12, voice := none, staff := none, pitch := none, tiePrev := false, chain := [] },
+  { oid := 4, cls := classId "Note", start := 3, stop := some 9, voice := some 1, staff := some 1, pitch := some 60, tiePrev := true, chain := [] },
+  { oid := 5, cls := classId "Note", start := 9, stop := some 12, voice := some 1, staff := none, pitch := some 64, tiePrev := false, chain := [] }] }
+
+/-- part B, divisions 4: two notes in voices 1 and 3, a grace note, a measure, a tempo, words on staff 1 -/
+def exB : APart := { pid := 1, divs := 4, elems := [
+  { oid := 10, cls := classId "Note", start := 0, stop := some 6, voice := some 1, staff := some 1, pitch := some 48, tiePrev := false, chain := [] },
+  { oid := 11, cls := classId "GraceNote", start := 0, stop := some 0, voice := some 1, staff := some 1, pitch := some 50, tiePrev := false, chain := [] },
+  { oid := 12, cls := classId "Measure", start := 0, stop := some 16, voice := none, staff := none, pitch := none, tiePrev := false, chain := [] },
+  { oid := 13, cls := classId "Tempo", start := 0, stop := none, voice := none, staff := none, pitch := none, tiePrev := false, chain := [] },
+  { oid := 14, cls := classId "Words", start := 0, stop := none, voice := none, staff := some 1, pitch := none, tiePrev := false, chain := [] },
+  { oid := 15, cls := classId "Note", start := 6, stop := some 16, voice := some 3, staff := none, pitch := some 55, tiePrev := false, chain := [] }] }
+
+/-- part C, divisions 2: five simultaneous voices on one staff -/
+def exC : APart := { pid := 2, divs := 2, elems := (List.range 5).map fun v =>
+  { oid := 20 + v, cls := classId "Note", start := 0, stop := some 2, voice := some (v + 1), staff := some 1, pitch := some 60, tiePrev := false, chain := [] } }
+
+/-- part D, divisions 2: one note in voice 1 -/
+def exD : APart := { pid := 3, divs := 2, elems := [
+  { oid := 30, cls := classId "Note", start := 0, stop := some 2, voice := some 1, staff := some 1, pitch := some 72, tiePrev := false, chain := [] }] }
 
 -- ================================================================ the result as a whole
 
@@ -48,7 +77,8 @@ theorem time_preserved (m : Mode) (ps : List APart) (hpos : ∀ p ∈ ps, 0 < p.
     p.divs ∣ L ∧ (L / p.divs) * p.divs = L
       ∧ e'.start = e.start * (L / p.divs) ∧ (e'.start : Rat) / L = (e.start : Rat) / p.divs
       ∧ e'.stop = e.stop.map (· * (L / p.divs))
-      ∧ e'.stop.map (fun s => (s : Rat) / L) = e.stop.map (fun s => (s : Rat) / p.divs)
+      ∧ e'.stop.map (fun (s : Nat) => (s : Rat) / (L : Rat))
+          = e.stop.map (fun (s : Nat) => (s : Rat) / (p.divs : Rat))
       ∧ e'.oid = e.oid ∧ e'.cls = e.cls ∧ e'.pitch = e.pitch := by
   intro L e'
   have hmem : p ∈ ps := List.mem_of_getElem? hp
@@ -239,5 +269,82 @@ whatever the mode and whatever its divisions -/
 theorem single_identity (m : Mode) (s : Shape) (p : APart) (h : iterParts s = [p]) :
     merge m s = some (.same p) := by
   simp [merge, h, mergeParts]
+
+-- ================================================================ sounding notes
+
+/-- The sounding rows (onset, tied duration, pitch) of the merged part are, as a multiset, the rows of the
+inputs rescaled to the least common multiple - i.e. the rows of the score-level note array
+(`note_array_from_part_list`, `refSound`). Hypotheses: every object occurs once, ties stay within a part. -/
+theorem sounding_equal (m : Mode) (ps : List APart) (L : Nat) (es : List Elem)
+    (h : mergeParts m ps = some (.merged L es)) (hid : OidsDistinct ps) (hties : TiesClosed ps) :
+    ((rows es).map Row.sound).Perm (refSound ps) := by
+  obtain ⟨_, _, _, hL, _⟩ := mergeParts_merged_iff.mp h
+  have hperm := merged_perm h
+  have hraw : ((mergeFrom m L true 0 0 0 ps).map (·.oid)).Nodup :=
+    hid.sublist (oids_sublist m L true 0 0 0 ps)
+  have hnd : (es.map (·.oid)).Nodup := (hperm.map _).nodup_iff.mpr hraw
+  have h1 : (rowsIn es es).Perm (rowsIn es (mergeFrom m L true 0 0 0 ps)) := rowsIn_perm es hperm
+  have h2 : rowsIn es (mergeFrom m L true 0 0 0 ps)
+      = rowsIn (mergeFrom m L true 0 0 0 ps) (mergeFrom m L true 0 0 0 ps) :=
+    rowsIn_congr (fun k => findOid_perm hperm hnd k) _
+  rw [h2] at h1
+  have h3 := h1.map Row.sound
+  rw [sounding_raw m L ps hid hties] at h3
+  subst hL
+  exact h3
+
+-- ================================================================ non-vacuity
+
+/-- what the examples show of a result -/
+def summary : Result → Nat × List (Nat × Nat × Option Nat × Option Nat × Option Nat)
+  | .merged L es => (L, es.map fun e => (e.oid, e.start, e.stop, e.voice, e.staff))
+  | .same p => (0, p.elems.map fun e => (e.oid, e.start, e.stop, e.voice, e.staff))
+
+/-- the hypotheses of the theorems hold for a non-trivial score: divisions 3 and 4 (lcm 12 exceeds both), a tie
+chain, a rest in its own voice, missing staves, structural and non-structural elements in both parts -/
+example : NumberedFrom1 [exA, exB] ∧ OidsDistinct [exA, exB] ∧ TiesClosed [exA, exB]
+    ∧ voicesGiven [exA, exB] = true ∧ (∀ p ∈ [exA, exB], 0 < p.divs)
+    ∧ (∀ p ∈ [exA, exB], (uVoices p).length ≤ 4 * nStaves p) := by
+  unfold NumberedFrom1 OidsDistinct TiesClosed
+  decide
+
+/-- ... and the merge of that score in voice mode is the expected part: lcm 12, part B's measure and tempo
+dropped, B's voices 1, 3 renumbered 3, 5 (A's maximal voice is 2), times multiplied by 4 and 3, in the order
+`iter_all()` yields (time point, class walk, insertion) -/
+example : (mergeParts .voice [exA, exB]).map summary
+    = some (12, [(0, 0, some 12, some 1, some 1), (10, 0, some 18, some 3, some 1),
+                 (11, 0, some 0, some 3, some 1), (1, 0, some 36, some 2, some 1), (2, 0, none, none, some 2),
+                 (3, 0, some 48, none, none), (14, 0, none, none, some 1), (4, 12, some 36, some 1, some 1),
+                 (15, 18, some 48, some 5, none), (5, 36, some 48, some 1, none)]) := by
+  rfl
+
+/-- staff mode: B's clef-less staff 1 (and its notes without staff) go to staff 3, above A's two staves -/
+example : (mergeParts .staff [exA, exB]).map summary
+    = some (12, [(0, 0, some 12, some 1, some 1), (10, 0, some 18, some 1, some 3),
+                 (11, 0, some 0, some 1, some 3), (1, 0, some 36, some 2, some 1), (2, 0, none, none, some 2),
+                 (3, 0, some 48, none, none), (14, 0, none, none, some 3), (4, 12, some 36, some 1, some 1),
+                 (15, 18, some 48, some 3, some 3), (5, 36, some 48, some 1, some 1)]) := by
+  rfl
+
+/-- its sounding rows (auto mode): the tied pair of A sounds for 36 = (3 + 6) * 4 -/
+example : (match mergeParts .auto [exA, exB] with
+      | some (.merged _ es) => (rows es).map Row.sound
+      | _ => [])
+    = [(0, some 36, some 60), (0, some 18, some 48), (0, some 0, some 50), (18, some 30, some 55),
+       (36, some 12, some 64)] := by decide
+
+example : iterParts (.many [.group [.group [.part exA], .group []]]) = [exA] := by decide
+example : iterParts (.one (.part exA)) = [exA] ∧ iterParts (.one (.group [.part exA])) = [exA] := by decide
+
+/-- F-C15-6 (open finding): with five voices on the one staff of the first part, auto mode gives the fifth voice of
+the first part and the voice of the second part the same number - the conclusion of
+`voices_disjoint_auto_partial` fails where its assumption of at most 4 voices per staff does. -/
+theorem auto_overflow_witness :
+    ∃ a ∈ exC.elems, ∃ b ∈ exD.elems, isGeneric a.cls = true ∧ isGeneric b.cls = true
+      ∧ a.voice = some 5 ∧ b.voice = some 1 ∧ NumberedFrom1 [exC, exD]
+      ∧ ¬ ((uVoices exC).length ≤ 4 * nStaves exC)
+      ∧ (image .auto 2 [exC, exD] 0 exC a).voice = (image .auto 2 [exC, exD] 1 exD b).voice := by
+  unfold NumberedFrom1
+  decide
 
 end C15
